@@ -85,7 +85,8 @@ def run_case(cf, specs, nums, col, check_format=True, check_exact=False):
     from vpbt.core import CpuTimeout, cpu_limit
 
     try:
-        with cpu_limit(120):
+        # once a non-terminating call has been recorded, later ones are cut short (the shard must still finish)
+        with cpu_limit(120 if "encoder-no-result-within-120s-cpu" not in col.failures else 5):
             blob, seq = S.encode(cf, pictures)
     except CpuTimeout:
         col.fail("encoder-no-result-within-120s-cpu", data, "make_sequence/serialisation did not finish within 120 s of CPU time")
